@@ -64,6 +64,7 @@ type Node struct {
 	Transport                                    p2p.VerifTransport
 	// OnEventSync is called synchronously with the executer (which is blocked meanwhile) for every event it publishes.
 	OnEventSync func(n *Node, msg interface{})
+	OnOpen      func(fs *simfs.FS)
 }
 
 var dbDirs = []string{"/data/blockchain.db", "/data/generator.db", "/data/state.db", "/data/module.db"}
@@ -83,6 +84,9 @@ func NewNode(id int, p *ChainParams, tr p2p.VerifTransport) *Node {
 // simulator calls their branches as events).
 func (n *Node) Start() (err error) {
 	n.FS = n.Disk.Open()
+	if n.OnOpen != nil {
+		n.OnOpen(n.FS) // a harness may arm a crash point for the recovery itself
+	}
 	fs := n.FS
 	knobs := n.P.DBKnobs
 	knobs.Fatal = func(msg string) { fs.Die("pebble fatal: " + msg) }
